@@ -22,7 +22,8 @@ fn denote(s: &[RowSelector]) -> (u32, usize) {
     (mask, pos)
 }
 
-//@ tier: quick
+//@ tier: thorough
+//@ timeout: 3000
 //@ functions: parquet::arrow::arrow_reader::selection::boolean::{boolean_mask_from_selectors, set_bit_run}
 //@ bound: <= 2 selectors with row_count <= 9 (runs cross byte boundaries): bit p of the produced mask is set iff position p is selected; length = total rows; unwind 12
 #[kani::proof]
@@ -73,7 +74,8 @@ fn c06_set_bit_run_exact() {
     kani::cover!(start % 8 != 0 && (start + len) % 8 != 0 && start / 8 == (start + len - 1) / 8 && len > 1, "inside one byte");
 }
 
-//@ tier: quick
+//@ tier: thorough
+//@ timeout: 3000
 //@ functions: parquet::arrow::arrow_reader::selection::boolean::{mask_to_selectors, MaskRunIter::next}, BooleanBuffer::set_slices
 //@ bound: arbitrary 10-bit mask at bit offset 0..=5 in a 2-byte buffer: the produced selectors denote exactly the mask, alternate strictly and have no empty selector; the streaming MaskRunIter yields the same first two selectors; unwind 14
 #[kani::proof]
@@ -108,7 +110,8 @@ fn c06_mask_to_selectors_denotation() {
     std::mem::forget(mask);
 }
 
-//@ tier: quick
+//@ tier: thorough
+//@ timeout: 3000
 //@ functions: parquet::arrow::arrow_reader::selection::boolean::{limit_mask, trim_mask, last_set_bit_position, split_off_mask}, BooleanBuffer::{find_nth_set_bit_position, slice}
 //@ bound: arbitrary 10-bit mask at bit offset 0..=5: limit_mask keeps exactly the first `limit` set rows (as a prefix); trim_mask removes exactly the trailing unset rows; split_off_mask partitions; unwind 14
 #[kani::proof]
